@@ -6,12 +6,13 @@ mod model;
 mod p_kmer;
 mod p_min;
 mod p_tables;
+mod p_vec;
 mod util;
 
 use engine::{Case, Report};
 use model::Model;
 
-const KINDS: &[&str] = &["kmers", "revcomp", "posmaps", "mins", "kmins"];
+const KINDS: &[&str] = &["kmers", "revcomp", "posmaps", "mins", "kmins", "oligo", "cov", "cgr", "oligocgr"];
 
 fn parse_case(line: &str) -> Option<Case> {
     let line = line.trim();
@@ -27,8 +28,10 @@ fn parse_case(line: &str) -> Option<Case> {
         if let Ok(p) = ws[i].parse::<u64>() {
             // a purely numeric hex string is ambiguous: parameters come first and their number is fixed per kind
             let nparams = match *kind {
-                "kmers" | "posmaps" => 1,
-                "revcomp" | "mins" | "kmins" => 2,
+                "kmers" | "posmaps" | "cgr" => 1,
+                "revcomp" | "mins" | "kmins" | "oligo" => 2,
+                "oligocgr" => 3,
+                "cov" => 4,
                 _ => 0,
             };
             if params.len() < nparams {
@@ -138,6 +141,25 @@ fn main() {
         "C01" => p_kmer::run_c01(eff_tier, seed, &model, corpus),
         "C02" => p_kmer::run_c02(eff_tier, seed, &model, corpus),
         "C03" => p_kmer::run_c03(eff_tier, seed, &model, corpus),
+        "C04" => p_vec::run_c04(eff_tier, seed, &model, corpus),
+        "C08" => {
+            let mut rep = Report::new("C08");
+            let mut rng = util::Rng::new(seed);
+            p_vec::run_c08_one(eff_tier, &mut rng, &model, &mut rep, corpus);
+            rep
+        }
+        "C11" => {
+            let mut rep = Report::new("C11");
+            let mut rng = util::Rng::new(seed);
+            p_vec::run_c11_one(eff_tier, &mut rng, &model, &mut rep, corpus);
+            rep
+        }
+        "C12" => {
+            let mut rep = Report::new("C12");
+            let mut rng = util::Rng::new(seed);
+            p_vec::run_c12_one(eff_tier, &mut rng, &model, &mut rep, corpus);
+            rep
+        }
         "C09" => p_min::run_c09(eff_tier, seed, &model, corpus),
         "C18" => p_min::run_c18(eff_tier, seed, &model, corpus),
         _ => {
